@@ -57,6 +57,7 @@ func runC06(c *Ctx) {
 	c.c06MoveBetweenKeepsItsSource()
 	c.c06NegativeDepthMeansUnlimited()
 	c.c06RefusalsBeforeChanges()
+	c.c06RawRemovalOnlyOfWhatIsEmpty()
 	// Z19: "the values returned are those of the reference model": is-empty and clean answer for the tree they were given
 	c.rule("Z19", absentOnlyWhenAbsentText, 2)
 	c.c04AbsentOnlyWhenAbsent("Z19", func(f *ssa.Function) bool { return f.Name() == "IsEmpty" || strings.HasPrefix(f.Name(), "CleanDir") })
@@ -1535,4 +1536,143 @@ func (c *Ctx) c06RefusalsBeforeChanges() {
 	})
 	c.check(n > 0 && bad == "", "Z18", fname(f)+"/refused-before-anything-is-created", c.pos(f.Pos()), "the function's own refusals cannot be reached after a mutating call",
 		"the refusal made at "+bad+" comes after the destination side was already changed: a copy of a directory into a missing directory of itself is refused with 'invalid' but leaves that directory behind, inside the source")
+}
+
+// c06RawRemovalOnlyOfWhatIsEmpty (Z20): "never alters or removes anything other than its destination … identically on the
+// OS-backed and the in-memory backend". The backend's own Remove refuses a directory with content on the OS backend; the
+// in-memory backend removes the directory and leaves its content behind, existing but out of reach of any listing. The
+// layer therefore hands a path to the backend's Remove only where it is a link, not a directory, or a directory found empty.
+func (c *Ctx) c06RawRemovalOnlyOfWhatIsEmpty() {
+	c.rule("Z20", "the backend's Remove is handed a path only where it is a symbolic link, not a directory, or a directory just found empty (the in-memory backend removes a directory with content and orphans that content)", 4)
+	fns := c.srcFuncs(fsPkgRel)
+	isCallTo := func(v ssa.Value, names ...string) (*ssa.Call, bool) {
+		v = resolveValue(v)
+		if ex, ok := v.(*ssa.Extract); ok {
+			v = ex.Tuple
+		}
+		cl, ok := v.(*ssa.Call)
+		if !ok {
+			return nil, false
+		}
+		nm := ""
+		if n, _, ok := fsMethodCall(cl); ok {
+			nm = n
+		} else if g := staticCallee(&cl.Call); g != nil {
+			nm = g.Name()
+		}
+		for _, n := range names {
+			if nm == n {
+				return cl, true
+			}
+		}
+		return nil, false
+	}
+	pathArg := func(cl *ssa.Call) ssa.Value {
+		if _, a, ok := fsMethodCall(cl); ok && len(a) > 0 {
+			return a[0]
+		}
+		for _, a := range cl.Call.Args {
+			if a.Type().String() == "string" {
+				return a
+			}
+		}
+		return nil
+	}
+	for _, f := range fns {
+		if f.Blocks == nil {
+			continue
+		}
+		n := 0
+		allInstrs(f, func(in ssa.Instruction) {
+			rem, ok := in.(*ssa.Call)
+			if !ok || !rem.Call.IsInvoke() || rem.Call.Method.Name() != "Remove" || len(rem.Call.Args) == 0 {
+				return
+			}
+			if _, ok := fieldLoad(rem.Call.Value, "VFS", "vfs"); !ok {
+				return
+			}
+			p := rem.Call.Args[0]
+			key := fname(f) + "/raw-removal"
+			if n > 0 {
+				key += "#" + strconv.Itoa(n)
+			}
+			n++
+			c.FuncsSeen[fname(f)] = true
+			if onBoolSide(rem, true, func(v ssa.Value) bool { _, ok := isCallTo(v, "IsSymLink"); return ok }) {
+				c.ok("Z20", key, c.ipos(rem), "reached only where the path was found to be a symbolic link")
+				return
+			}
+			// the closest emptiness measurement of the same path which dominates the removal
+			var e *ssa.Call
+			allInstrs(f, func(i2 ssa.Instruction) {
+				cl, ok := i2.(*ssa.Call)
+				if !ok {
+					return
+				}
+				if _, ok := isCallTo(cl, "IsEmpty", "isDirEmpty"); !ok {
+					return
+				}
+				if a := pathArg(cl); a == nil || !samePath(a, p) {
+					return
+				}
+				if dominates(cl, rem) && (e == nil || dominates(e, cl)) {
+					e = cl
+				}
+			})
+			if e != nil {
+				prune := func(b *ssa.BasicBlock, k int) bool {
+					ifi, ok := b.Instrs[len(b.Instrs)-1].(*ssa.If)
+					if !ok {
+						return false
+					}
+					v, ts := boolTest(ifi)
+					if cl, ok := isCallTo(v, "IsEmpty", "isDirEmpty"); ok && cl == e {
+						return k == ts // found empty: fine
+					}
+					if cl, ok := isCallTo(v, "IsDir"); ok {
+						if a := pathArg(cl); a != nil && samePath(a, p) {
+							return k == 1-ts // not a directory: fine
+						}
+					}
+					return false
+				}
+				bad := pathPruned(f, e, func(ssa.Instruction) bool { return false }, func(i ssa.Instruction) bool { return i == ssa.Instruction(rem) }, prune)
+				c.check(bad == nil, "Z20", key, c.ipos(rem), "every path from the emptiness test at "+c.ipos(e)+" to the removal goes over its 'empty' side (or the 'not a directory' side)",
+					"the removal can be reached where the directory was found not empty: the in-memory backend removes the directory and leaves its content behind — it exists but no listing shows it — and the call reports success where the OS backend answers 'directory not empty'")
+				return
+			}
+			// not a directory by the callers' own test
+			pi := -1
+			for i, prm := range f.Params {
+				if resolveValue(p) == ssa.Value(prm) {
+					pi = i
+				}
+			}
+			callers, guarded := 0, 0
+			if pi >= 0 {
+				for _, g := range fns {
+					allInstrs(g, func(i2 ssa.Instruction) {
+						cl, ok := i2.(*ssa.Call)
+						if !ok || staticCallee(&cl.Call) != f || len(cl.Call.Args) <= pi {
+							return
+						}
+						callers++
+						arg := cl.Call.Args[pi]
+						if onBoolSide(cl, false, func(v ssa.Value) bool {
+							d, ok := isCallTo(v, "IsDir")
+							if !ok {
+								return false
+							}
+							a := pathArg(d)
+							return a != nil && samePath(a, arg)
+						}) {
+							guarded++
+						}
+					})
+				}
+			}
+			c.check(callers > 0 && callers == guarded, "Z20", key, c.ipos(rem), "every caller reaches the function on the 'not a directory' side of its IsDir test of that path",
+				"the path handed to the backend's Remove is not known to be a link, a file or an empty directory: the in-memory backend removes a directory with its content and leaves that content behind, out of reach, where the OS backend answers 'directory not empty'")
+		})
+	}
 }
